@@ -2,7 +2,7 @@
     with shared sub-objects, with cycles through lists/objects) against the heap model:
     exact [encode] text (incl. py/id numbering), the shape of the decoded graph (which nodes
     are the same object), and the text of encoding the decoded graph again. *)
-From Playback Require Export Base.Str Values.PyVal Values.Codec Values.Heap.
+From Playback Require Export Base.Str Values.PyVal Values.Codec Values.Heap Values.HeapRoundTrip.
 Open Scope list_scope.
 
 Record case := Case {
@@ -50,6 +50,9 @@ Definition check_case (c : case) : bool :=
   | HOk j =>
       option_eqb str_eqb (Some (dumps j)) (c_enc c) &&
       option_eqb json_eqb (Some j) (c_json c) &&
+      (* the hypothesis of C11_roundtrip_partial, evaluated on the implementation's own output:
+         where it holds, the implementation's re-encoding must be the original text *)
+      (if enc_ok qp_simple qp_dec_simple (fuel_for h) j then option_eqb str_eqb (c_reenc c) (c_enc c) else true) &&
       match decode_h qp_dec_simple (fuel_for h) [] j with
       | HErr _ => is_none (c_dec_shape c)
       | HOk (h', r') =>
